@@ -140,6 +140,23 @@ CHECKS = {
         "(listed, not counted); q->0 equality, positivity and finiteness only through the replay grid",
    technique=TECH + "clang JSON AST -> Sigma-normal forms -> polynomial identities / z3; replay grid on call_Fq",
    design="DESIGN.md 6 C14"),
+ "C15": dict(engine="pyvc+rex",
+   text="generate.convert_type is executed symbolically (z3 strings) and proved equal to '#define FLOAT_SIZE n' + convert(promote(source), "
+        "type, flag) for the four precisions (integer promotion before literal tagging; ValueError otherwise); the three regular "
+        "expressions are taken from the live module / the AST of _convert_type, parsed by CPython's regex parser and translated to z3 "
+        "regular expressions: soundness, completeness, maximal-munch, context and overlap-freedom lemmas (for strings of any length) give "
+        "'exactly the unsuffixed decimal floating constants get the suffix' and 'exactly the identifier tokens (c)double(N) are renamed'; "
+        "core.parse_dtype is executed for every spelling x platform with symbolic model flags and GPU availability (stated type, '!' "
+        "forces dll, fast flag, default rule); kerneldll.dll_path is injective in (tag, precision); kerneldll.make_dll on a ghost file "
+        "system converts and compiles the given source at the precision that names the library.",
+   note="alphabet 7-bit ASCII; the step from the regex lemmas to token streams is a paper argument (DESIGN.md), cross-checked by the "
+        "bounded token-level differential against a reference C tokenizer on all 61 generated model sources x 2 precisions and on "
+        "fragments; compiled float32/long double kernels are compared with double on a few models (all single-safe models in the "
+        "thorough tier) - bounded, not counted; four recorded findings (leading-zero and hexadecimal constants, string literal "
+        "contents, constant directly after a keyword)",
+   technique=TECH + "Python AST symbolic execution over z3 strings + regular-expression language lemmas (z3 seq/re theory); witnesses "
+             "replayed through generate.convert_type against a reference tokenizer",
+   design="DESIGN.md 6 C15"),
  "C16": dict(engine="cvc+pyvc",
    text="For each reparameterisation of the program family (contracts/c16.py: ellipsoid volume/eccentricity with an intermediate, "
         "hollow_cylinder outer radius/wall fraction, parallelepiped aspect, sphere affine, cylinder with a validity region, lamellar "
@@ -195,6 +212,8 @@ m = {
    "kind_free_text": "Python AST symbolic executor generating verification conditions for z3 (cvc5 fallback); sidecar contracts in contracts/"},
   {"name": "symcheck", "path": "vp/symcheck.py", "serves_properties": sorted(p for p, c in CHECKS.items() if "symcheck" in c["engine"]),
    "kind_free_text": "homogeneity/degree grading of C functions over clang's JSON AST (relational contracts)"},
+  {"name": "rex", "path": "vp/rex.py", "serves_properties": sorted(p for p, c in CHECKS.items() if "rex" in c["engine"]),
+   "kind_free_text": "Python re patterns (parsed by CPython's own regex parser) as z3 regular expressions; language lemmas as unsat queries"},
   {"name": "cvc", "path": "vp/cvc.py", "serves_properties": sorted(p for p, c in CHECKS.items() if "cvc" in c["engine"]),
    "kind_free_text": "C symbolic executor over clang's JSON AST of the generated kernel source; VCs for z3"},
  ],
